@@ -10,6 +10,9 @@ use crate::dependency::{Dependency, ResourceDependencyObj, TaskDependencyObj};
 use crate::trait_object::task::TaskObj;
 use crate::trait_object::{KeyObj, ValueObj};
 
+#[cfg(feature = "gohla_pie_verif")]
+pub mod verif;
+
 pub struct Store {
   graph: DAG<NodeData, Dependency>,
   task_to_node: HashMap<Box<dyn TaskObj>, TaskNode>,
